@@ -139,7 +139,7 @@ func (f *formattedSpreaderPipeline[T]) spread(ctx context.Context, w io.Writer, 
 				verifPoint("fspread.recv")
 				if err := encode(toFormattedNode(root, f.formattedRoot(root.name))); err != nil {
 					verifPoint("fspread.err")
-					errc <- err
+					sendErr(ctx, errc, err)
 				}
 			}
 		}
@@ -184,12 +184,12 @@ func (cs *colorizeSpreaderPipeline) spread(ctx context.Context, w io.Writer, roo
 						cs.spreadBranch(root),
 						cs.summary()),
 				); err != nil {
-					errc <- err
+					sendErr(ctx, errc, err)
 					return
 				}
 			}
 			if err := bw.Flush(); err != nil {
-				errc <- err
+				sendErr(ctx, errc, err)
 				return
 			}
 		}
